@@ -8,47 +8,97 @@ Local Open Scope Z_scope.
 
 Definition wsp (s : string) : Prop := sall is_ws s = true.
 
+(** a gap between tokens: white space and ;-comments, each comment running to a line break *)
+Definition comment_char (c : ascii) : bool := negb (is_nl c) && plain_char c.
+Inductive gap : string -> Prop :=
+  | g_nil : gap ""
+  | g_ws c w : is_ws c = true -> gap w -> gap (String c w)
+  | g_comment body n w : sall comment_char body = true -> is_nl n = true -> gap w ->
+      gap (String ";"%char (body ++ String n w)).
+(** a gap that separates: empty or starting with white space (a ';' directly after a symbol is not covered) *)
+Definition wgap (g : string) : Prop := gap g /\ match g with EmptyString => True | String c _ => is_ws c = true end.
+
+Lemma wsp_gap ws : wsp ws -> gap ws.
+Proof.
+  unfold wsp. induction ws as [|c w IH]; intros H; [constructor|]. cbn [sall] in H. apply andb_prop in H as [Hc Hw].
+  constructor; [exact Hc|apply IH, Hw].
+Qed.
+Lemma wsp_wgap ws : wsp ws -> wgap ws.
+Proof.
+  intros H. split; [apply wsp_gap, H|]. destruct ws as [|c w]; [exact I|]. unfold wsp in H. cbn [sall] in H.
+  apply andb_prop in H as [Hc _]. exact Hc.
+Qed.
+
+Lemma skip_line_comment body n r : sall comment_char body = true -> is_nl n = true ->
+  skip_line (body ++ String n r) = String n r.
+Proof.
+  induction body as [|c b IH]; intros Hb Hn; cbn [append skip_line]; [rewrite Hn; reflexivity|].
+  cbn [sall] in Hb. apply andb_prop in Hb as [Hc Hb]. unfold comment_char in Hc. apply andb_prop in Hc as [Hc _].
+  destruct (is_nl c); [discriminate|]. apply IH; assumption.
+Qed.
+Lemma skip_line_open body : sall comment_char body = true -> skip_line body = "".
+Proof.
+  induction body as [|c b IH]; intros Hb; [reflexivity|]. cbn [sall] in Hb. apply andb_prop in Hb as [Hc Hb].
+  unfold comment_char in Hc. apply andb_prop in Hc as [Hc _]. cbn [skip_line]. destruct (is_nl c); [discriminate|]. apply IH, Hb.
+Qed.
+Lemma nl_is_ws n : is_nl n = true -> is_ws n = true.
+Proof. unfold is_nl, is_ws. intros H. rewrite H. rewrite !orb_true_r. reflexivity. Qed.
+Lemma semicolon_not_ws : is_ws ";"%char = false. Proof. reflexivity. Qed.
+
+(** skipping a gap costs at most one unit of fuel per character *)
+Lemma skip_inter_gap g : gap g -> forall k n s, (String.length g + k <= n)%nat ->
+  exists m, (k <= m)%nat /\ skip_inter n (g ++ s) = skip_inter m s.
+Proof.
+  induction 1 as [|c w Hc Hw IH|body nlc w Hb Hn Hw IH]; intros k n s Hlen.
+  - exists n. split; [cbn in Hlen; lia|reflexivity].
+  - cbn [String.length] in Hlen. destruct n as [|n]; [lia|]. cbn [append skip_inter]. rewrite Hc.
+    apply IH. lia.
+  - cbn [String.length] in Hlen. rewrite length_append in Hlen. cbn [String.length] in Hlen.
+    destruct n as [|n]; [lia|]. cbn [append skip_inter]. rewrite semicolon_not_ws. change (aZ ";"%char =? 59) with true. cbn iota.
+    rewrite sappend_assoc. cbn [append]. rewrite (skip_line_comment body nlc (w ++ s) Hb Hn).
+    destruct n as [|n]; [lia|]. cbn [skip_inter]. rewrite (nl_is_ws nlc Hn). apply IH. lia.
+Qed.
+
 Lemma skip_inter_wsp : forall ws s fuel, wsp ws -> skip_inter (String.length ws + fuel) (ws ++ s) = skip_inter fuel s.
 Proof.
   induction ws as [|c ws IH]; intros s fuel H; [reflexivity|]. unfold wsp in H. cbn [sall] in H. apply andb_prop in H as [Hc Hw].
   cbn [String.length Nat.add append skip_inter]. rewrite Hc. apply IH. exact Hw.
 Qed.
 
-(** white space before a character that is neither white space nor ';' is skipped, and nothing else *)
-Lemma inter_wsp ws c r : wsp ws -> is_ws c = false -> (aZ c =? 59) = false -> inter (ws ++ String c r) = String c r.
+(** a gap before a character that is neither white space nor ';' is skipped, and nothing else *)
+Lemma inter_gap g c r : gap g -> is_ws c = false -> (aZ c =? 59) = false -> inter (g ++ String c r) = String c r.
 Proof.
-  intros Hw H1 H2. unfold inter. rewrite length_append. cbn [String.length].
-  replace (S (String.length ws + S (String.length r))) with (String.length ws + S (S (String.length r)))%nat by lia.
-  rewrite (skip_inter_wsp ws _ _ Hw). cbn [skip_inter]. rewrite H1, H2. reflexivity.
+  intros Hg H1 H2. unfold inter. rewrite length_append. cbn [String.length].
+  destruct (skip_inter_gap g Hg 1 (S (String.length g + S (String.length r))) (String c r)) as (m & Hm & E); [lia|].
+  rewrite E. destruct m as [|m]; [lia|]. cbn [skip_inter]. rewrite H1, H2. reflexivity.
 Qed.
+Lemma inter_wsp ws c r : wsp ws -> is_ws c = false -> (aZ c =? 59) = false -> inter (ws ++ String c r) = String c r.
+Proof. intros Hw. apply inter_gap, wsp_gap, Hw. Qed.
 
-Lemma p_sexpr_skip_ws f ws c t : wsp ws -> is_ws c = false -> (aZ c =? 59) = false ->
+Lemma p_sexpr_skip_ws f ws c t : gap ws -> is_ws c = false -> (aZ c =? 59) = false ->
   p_sexpr (S f) (ws ++ String c t) = p_sexpr (S f) (String c t).
 Proof.
-  intros Hw H1 H2. cbn [p_sexpr]. rewrite (inter_wsp ws c t Hw H1 H2), (inter_nonspace c t H1 H2). reflexivity.
+  intros Hw H1 H2. cbn [p_sexpr]. rewrite (inter_gap ws c t Hw H1 H2), (inter_nonspace c t H1 H2). reflexivity.
 Qed.
 
 (** [renders e text]: text is e printed with any layout *)
 Inductive renders : val -> string -> Prop :=
   | r_atom e : (forall w l, e <> VList w l) -> renders e (show e)
   | r_nil : renders (VList true []) "()"
-  | r_list x l ws0 body : wsp ws0 -> rbody (x :: l) body -> renders (VList true (x :: l)) ("(" ++ ws0 ++ body)
+  | r_list x l ws0 body : gap ws0 -> rbody (x :: l) body -> renders (VList true (x :: l)) ("(" ++ ws0 ++ body)
 with rbody : list val -> string -> Prop :=
-  | b_last x tx ws : renders x tx -> wsp ws -> rbody [x] (tx ++ ws ++ ")")
-  | b_cons x y l tx ws rest : renders x tx -> wsp ws -> ws <> "" -> rbody (y :: l) rest -> rbody (x :: y :: l) (tx ++ ws ++ rest).
+  | b_last x tx ws : renders x tx -> wgap ws -> rbody [x] (tx ++ ws ++ ")")
+  | b_cons x y l tx ws rest : renders x tx -> wgap ws -> ws <> "" -> rbody (y :: l) rest -> rbody (x :: y :: l) (tx ++ ws ++ rest).
 
 Scheme renders_ind2 := Induction for renders Sort Prop
 with rbody_ind2 := Induction for rbody Sort Prop.
 
-Lemma p_list_skip_ws f cl ws c t acc : wsp ws -> is_ws c = false -> (aZ c =? 59) = false ->
+Lemma p_list_skip_ws f cl ws c t acc : gap ws -> is_ws c = false -> (aZ c =? 59) = false ->
   p_list (S (S f)) cl (ws ++ String c t) acc = p_list (S (S f)) cl (String c t) acc.
 Proof. intros Hw H1 H2. cbn [p_list]. rewrite (p_sexpr_skip_ws f ws c t Hw H1 H2). reflexivity. Qed.
 
-Lemma wsp_delim ws tail : wsp ws -> delim tail -> delim (ws ++ tail).
-Proof.
-  intros Hw Hd. destruct ws as [|c w]; [exact Hd|]. unfold wsp in Hw. cbn [sall] in Hw. apply andb_prop in Hw as [Hc _].
-  cbn [append delim]. left. exact Hc.
-Qed.
+Lemma wsp_delim ws tail : wgap ws -> delim tail -> delim (ws ++ tail).
+Proof. intros [_ Hw] Hd. destruct ws as [|c w]; [exact Hd|]. cbn [append delim]. left. exact Hw. Qed.
 
 Lemma wsp_tail c w : wsp (String c w) -> wsp w.
 Proof. unfold wsp. cbn [sall]. intros H. apply andb_prop in H as [_ H]. exact H. Qed.
@@ -100,8 +150,9 @@ Proof.
         rewrite (Hbody (S (S f)) rest []); [reflexivity|]. cbn [sum_size fold_right] in *. lia. }
       unfold tail in *. destruct ws0 as [|d w0].
       - rewrite Eb in *. cbn [append] in *. rewrite (Hneq c (or_intror eq_refl)). exact Hp.
-      - cbn [append] in *. unfold wsp in Hw. cbn [sall] in Hw. apply andb_prop in Hw as [Hd0 _].
-        rewrite (Hneq d (or_introl Hd0)). exact Hp. }
+      - cbn [append] in *. assert (Hd0 : Ascii.eqb d ")"%char = false).
+        { inversion Hw as [|? ? Hc0 _|]; subst; [apply Hneq; left; exact Hc0|reflexivity]. }
+        rewrite Hd0. exact Hp. }
     rewrite Hlist. rewrite (delim_postfix _ _ rest Hd).
     pose proof (delim_not_at rest Hd) as Ha. destruct rest as [|d r]; [reflexivity|].
     destruct d as [b0 b1 b2 b3 b4 b5 b6 b7]. destruct b0, b1, b2, b3, b4, b5, b6, b7; try reflexivity. destruct Ha.
@@ -109,16 +160,16 @@ Proof.
     destruct (IHx Hx) as [Hpx (c & t & Ex & Hc)]. split; [|exists c, (t ++ ws ++ ")"); split; [rewrite Ex; reflexivity|exact Hc]].
     intros f rest acc Hf. cbn [sum_size fold_right] in Hf. destruct f as [|f]; [lia|]. cbn [p_list].
     rewrite !sappend_assoc. rewrite (Hpx f (ws ++ ")" ++ rest)); [|lia|apply wsp_delim; [exact Hw|right; reflexivity]].
-    change (")" ++ rest) with (String ")"%char rest). rewrite (inter_wsp ws ")"%char rest Hw eq_refl eq_refl).
+    change (")" ++ rest) with (String ")"%char rest). rewrite (inter_gap ws ")"%char rest (proj1 Hw) eq_refl eq_refl).
     change (Ascii.eqb ")"%char ")"%char) with true. cbn iota. cbn [rev]. reflexivity.
   - (* more elements *) intros x y l tx ws rest0 Hr IHx Hw Hne Hb IHb Hs. cbn [forallb] in Hs. apply andb_prop in Hs as [Hx Hl].
     destruct (IHx Hx) as [Hpx (c & t & Ex & Hc)]. destruct (IHb Hl) as [Hpb (c2 & t2 & E2 & Hc2)].
     split; [|exists c, (t ++ ws ++ rest0); split; [rewrite Ex; reflexivity|exact Hc]].
     intros f rest acc Hf. change (sum_size (x :: y :: l)) with (vsize x + sum_size (y :: l))%nat in Hf. destruct f as [|f]; [lia|]. cbn [p_list].
     rewrite !sappend_assoc. rewrite (Hpx f (ws ++ rest0 ++ rest)); [|pose proof (vsize_pos x); lia|].
-    2:{ destruct ws as [|d w]; [contradiction|]. unfold wsp in Hw. cbn [sall] in Hw. apply andb_prop in Hw as [Hd0 _]. cbn [append delim]. left. exact Hd0. }
+    2:{ destruct ws as [|d w]; [contradiction|]. destruct Hw as [_ Hd0]. cbn [append delim]. left. exact Hd0. }
     rewrite E2. cbn [append]. destruct Hc2 as (C1 & C2 & C3).
-    rewrite (inter_wsp ws c2 (t2 ++ rest) Hw C1 C2).
+    rewrite (inter_gap ws c2 (t2 ++ rest) (proj1 Hw) C1 C2).
     assert (Hneq : Ascii.eqb c2 ")"%char = false).
     { destruct (Ascii.eqb_spec c2 ")"%char) as [->|]; [discriminate C3|reflexivity]. }
     rewrite Hneq. change (String c2 (t2 ++ rest)) with (String c2 t2 ++ rest). rewrite <- E2.
@@ -133,6 +184,23 @@ Proof.
   repeat match type of Hc with (_ || _) = true => apply orb_prop in Hc as [Hc|Hc] end; apply Z.eqb_eq in Hc; lia.
 Qed.
 
+Lemma comment_plain body : sall comment_char body = true -> sall plain_char body = true.
+Proof.
+  induction body as [|c b IH]; [reflexivity|]. cbn [sall]. intros H. apply andb_prop in H as [Hc Hb].
+  unfold comment_char in Hc. apply andb_prop in Hc as [_ Hc]. rewrite Hc, (IH Hb). reflexivity.
+Qed.
+Lemma ws_plain c : is_ws c = true -> plain_char c = true.
+Proof.
+  intros Hc. pose proof (wsp_plain (String c "")) as X. unfold wsp in X. cbn [sall] in X. rewrite Hc in X.
+  specialize (X eq_refl). rewrite andb_true_r in X. exact X.
+Qed.
+Lemma gap_plain g : gap g -> sall plain_char g = true.
+Proof.
+  induction 1 as [|c w Hc Hw IH|body n w Hb Hn Hw IH]; [reflexivity| |].
+  - cbn [sall]. rewrite IH, (ws_plain c Hc). reflexivity.
+  - cbn [sall]. rewrite sall_app. cbn [sall]. rewrite (comment_plain body Hb), IH, (ws_plain n (nl_is_ws n Hn)). reflexivity.
+Qed.
+
 Lemma renders_facts :
   forall e text, renders e text -> simple e = true ->
     sall plain_char text = true /\ (2 * vsize e <= String.length text + 1)%nat.
@@ -144,14 +212,14 @@ Proof.
   - intros _. split; [reflexivity|cbn; lia].
   - intros x l ws0 body Hw _ IH Hs. cbn [simple] in Hs. apply andb_prop in Hs as [Hs _]. destruct (IH Hs) as [P L].
     split.
-    + cbn [append sall]. rewrite sall_app, (wsp_plain ws0 Hw), P. reflexivity.
+    + cbn [append sall]. rewrite sall_app, (gap_plain ws0 Hw), P. reflexivity.
     + cbn [vsize append String.length]. fold (sum_size (x :: l)). rewrite length_append. lia.
   - intros x tx ws _ IH Hw Hs. cbn [forallb] in Hs. apply andb_prop in Hs as [Hx _]. destruct (IH Hx) as [P L]. split.
-    + rewrite !sall_app, P, (wsp_plain ws Hw). reflexivity.
+    + rewrite !sall_app, P, (gap_plain ws (proj1 Hw)). reflexivity.
     + cbn [sum_size fold_right]. rewrite !length_append. cbn [String.length]. lia.
   - intros x y l tx ws rest _ IHx Hw Hne _ IHb Hs. cbn [forallb] in Hs. apply andb_prop in Hs as [Hx Hl].
     destruct (IHx Hx) as [P L]. destruct (IHb Hl) as [P2 L2]. split.
-    + rewrite !sall_app, P, (wsp_plain ws Hw), P2. reflexivity.
+    + rewrite !sall_app, P, (gap_plain ws (proj1 Hw)), P2. reflexivity.
     + change (sum_size (x :: y :: l)) with (vsize x + sum_size (y :: l))%nat. rewrite !length_append.
       destruct ws as [|d w]; [contradiction|]. cbn [String.length]. lia.
 Qed.
@@ -162,16 +230,45 @@ Proof.
   rewrite <- (append_nil_r' ws) at 2. rewrite (skip_inter_wsp ws "" 1 H). reflexivity.
 Qed.
 
-(** a text consisting of white space, an expression of the class in any layout, white space *)
+(** what may follow the last expression: a separating gap, possibly ending in a comment that runs to the end of the text *)
+Definition tgap (t : string) : Prop :=
+  exists g tail, t = g ++ tail /\ wgap g /\ (g = "" -> tail = "") /\
+                 (tail = "" \/ exists body, tail = String ";"%char body /\ sall comment_char body = true).
+
+Lemma wgap_tgap g : wgap g -> tgap g.
+Proof. intros H. exists g, "". rewrite append_nil_r'. repeat split; [exact (proj1 H)|exact (proj2 H)|left; reflexivity]. Qed.
+
+Lemma inter_tgap t : tgap t -> inter t = "".
+Proof.
+  intros (g & tail & -> & [Hg _] & _ & Ht). unfold inter. rewrite length_append.
+  destruct Ht as [->|(body & -> & Hb)].
+  - destruct (skip_inter_gap g Hg 1 (S (String.length g + String.length "")) "") as (m & Hm & E); [cbn; lia|].
+    rewrite E. destruct m; [lia|reflexivity].
+  - cbn [String.length].
+    destruct (skip_inter_gap g Hg 2 (S (String.length g + S (String.length body))) (String ";"%char body)) as (m & Hm & E); [lia|].
+    rewrite E. destruct m as [|[|m]]; [lia|lia|]. cbn [skip_inter]. rewrite semicolon_not_ws. change (aZ ";"%char =? 59) with true. cbn iota.
+    rewrite (skip_line_open body Hb). reflexivity.
+Qed.
+Lemma tgap_plain t : tgap t -> sall plain_char t = true.
+Proof.
+  intros (g & tail & -> & [Hg _] & _ & Ht). rewrite sall_app, (gap_plain g Hg).
+  destruct Ht as [->|(body & -> & Hb)]; [reflexivity|]. cbn [sall]. rewrite (comment_plain body Hb). reflexivity.
+Qed.
+Lemma tgap_delim t : tgap t -> delim t.
+Proof.
+  intros (g & tail & -> & [_ Hg] & H0 & _). destruct g as [|c w]; [rewrite (H0 eq_refl); exact I|]. cbn [append delim]. left. exact Hg.
+Qed.
+
+(** a text consisting of a gap, an expression of the class in any layout, a trailing gap *)
 Theorem read_with_layout e text lead trail :
-  renders e text -> simple e = true -> wsp lead -> wsp trail ->
+  renders e text -> simple e = true -> gap lead -> tgap trail ->
   read_sexpr (lead ++ text ++ trail) = ROk e "".
 Proof.
   intros Hr Hs Hl Ht. destruct (layout_roundtrip e text Hr Hs) as [Hp (c & t & E & (C1 & C2 & C3))].
   destruct (renders_facts e text Hr Hs) as [Hplain Hlen].
   unfold read_sexpr.
   assert (Hm : modelled_text (lead ++ text ++ trail) = true).
-  { apply plain_modelled. rewrite !sall_app, (wsp_plain lead Hl), Hplain, (wsp_plain trail Ht). reflexivity. }
+  { apply plain_modelled. rewrite !sall_app, (gap_plain lead Hl), Hplain, (tgap_plain trail Ht). reflexivity. }
   rewrite Hm. cbn [negb]. unfold reader_fuel.
   remember (4 * String.length (lead ++ text ++ trail) + 40)%nat as fuel eqn:Ef.
   assert (Hfuel : (5 * vsize e + 4 <= fuel)%nat).
@@ -180,6 +277,11 @@ Proof.
   rewrite E. cbn [append]. rewrite (p_sexpr_skip_ws fuel lead c (t ++ trail) Hl C1 C2).
   change (String c (t ++ trail)) with (String c t ++ trail). rewrite <- E.
   rewrite (Hp (S fuel) trail Hfuel).
-  - rewrite (inter_all_ws trail Ht). reflexivity.
-  - destruct trail as [|d w]; [exact I|]. unfold wsp in Ht. cbn [sall] in Ht. apply andb_prop in Ht as [Hd _]. left. exact Hd.
+  - rewrite (inter_tgap trail Ht). reflexivity.
+  - apply tgap_delim, Ht.
 Qed.
+
+(** white space only, as a special case *)
+Corollary read_with_white_space e text lead trail :
+  renders e text -> simple e = true -> wsp lead -> wsp trail -> read_sexpr (lead ++ text ++ trail) = ROk e "".
+Proof. intros Hr Hs Hl Ht. apply read_with_layout; [exact Hr|exact Hs|apply wsp_gap, Hl|apply wgap_tgap, wsp_wgap, Ht]. Qed.
